@@ -59,6 +59,14 @@ def blocksOf (cfg : Cfg) (parser : String) (text : Text) (nodes : List Node) : E
       | .ok html => .ok (mergeBlocks (md.length + html.length + 1) md html)
   else one nodes
 
+/-- the `filter_map` of `parse_file`: `All` keeps every block, `ModifiedOnly` those whose start tag or
+    content intersects a change; both flags are recorded -/
+def selectBlocks (bs : List Block) (changes : List LC) (all : Bool) : List BlockCtx :=
+  bs.filterMap (fun b =>
+    let cm := contentModified b changes
+    let tm := tagModified b changes
+    if all || cm || tm then some ⟨b, tm, cm⟩ else none)
+
 /-- `parse_file`: `none` = no grammar for this name -/
 def parseFile (cfg : Cfg) (extra : List (Text × Text)) (path : Text) (text : Option Text) (nodes : List Node)
     (changes : List LC) (all : Bool) : Except PErr (Option FileCtx) :=
@@ -71,11 +79,7 @@ def parseFile (cfg : Cfg) (extra : List (Text × Text)) (path : Text) (text : Op
       match blocksOf cfg parser text nodes with
       | .error e => .error e
       | .ok bs =>
-        let ctxs := bs.filterMap (fun b =>
-          let cm := contentModified b changes
-          let tm := tagModified b changes
-          if all || cm || tm then some ⟨b, tm, cm⟩ else none)
-        .ok (some ⟨path, text, ctxs⟩)
+        .ok (some ⟨path, text, selectBlocks bs changes all⟩)
 
 /-- the file system and path checker as seen by `parse_blocks` -/
 structure World where
